@@ -1,9 +1,10 @@
 import Drx.Idx
 import Drx.IdxSpec
+import Drx.IdxSteps
 import Drx.Codec
 import Drx.Drv.Util
 namespace Drx.Drv.Idx
-open Drx Drx.Drv Drx.Idx Drx.IdxSpec
+open Drx Drx.Drv Drx.Idx Drx.IdxSpec Drx.IdxSteps
 
 /-- "-" = empty list, else comma separated -/
 def items (s : String) : List String := if s = "-" then [] else s.splitOn ","
@@ -94,6 +95,31 @@ def run : List String → Option String
     let f1 ← bytesOfHex f1; let color ← parseNat color; let f2 ← bytesOfHex f2; let p46 ← parseInt p46
     let f3 ← bytesOfHex f3; let p4e ← parseInt p4e; let tail ← bytesOfHex tail
     some (hx (encVwcf ⟨w, top, left, bottom, right, cs, ce, rate, f1, UInt8.ofNat color, f2, p46, f3, p4e, tail⟩))
+  -- C10 support: rounds started by the loops of each reader (counting twins of Drx/IdxSteps.lean); `stepsx` adds the bytes sliced
+  | ["steps", "key", o, h] => do
+    let o ← parseOrder o; let b ← bytesOfHex h
+    some (toString (parseKeySteps o b))
+  | ["steps", "cas", h] => do
+    let b ← bytesOfHex h
+    some (toString (parseCasSteps b))
+  | ["steps", "lctx", h] => do
+    let b ← bytesOfHex h
+    some (toString (parseLctxSteps b))
+  | ["steps", "lnam", c, h] => do
+    let dec ← codecDec c; let b ← bytesOfHex h
+    some (toString (parseLnamSteps dec b).1)
+  | ["steps", "vwlb", c, h] => do
+    let dec ← codecDec c; let b ← bytesOfHex h
+    some (toString (parseVwlbSteps dec b).1)
+  | ["steps", "vwcf", _h] => some "0"
+  | ["stepsx", "lnam", c, h] => do
+    let dec ← codecDec c; let b ← bytesOfHex h
+    let r := parseLnamSteps dec b
+    some (J.obj [("rounds", J.nat r.1), ("bytes", J.nat r.2)]).render
+  | ["stepsx", "vwlb", c, h] => do
+    let dec ← codecDec c; let b ← bytesOfHex h
+    let r := parseVwlbSteps dec b
+    some (J.obj [("rounds", J.nat r.1), ("bytes", J.nat r.2)]).render
   | ["vclass", w] => do
     let w ← parseNat w
     let cls := specClass (w / 256) (w % 256)
